@@ -5,6 +5,7 @@ import (
 	"fmt"
 	"hash/crc64"
 	"math"
+	"slices"
 
 	"github.com/plgd-dev/go-coap/v3/message"
 	"github.com/plgd-dev/go-coap/v3/message/pool"
@@ -81,10 +82,30 @@ func (c *LimitParallelRequests) acquireEndpoint(ctx context.Context, endpointLim
 	})
 	select {
 	case <-ctx.Done():
-		c.releaseEndpoint(endpointLimitKey)
+		c.cancelEndpoint(endpointLimitKey, reqChan)
 		return ctx.Err()
 	case <-reqChan:
 		return nil
+	}
+}
+
+// cancelEndpoint withdraws a request whose context ended while it was waiting in acquireEndpoint.
+// A request that is still queued owns no slot: it is only removed from the queue. A request that
+// was admitted concurrently (its channel is already closed) owns a slot and gives it back.
+func (c *LimitParallelRequests) cancelEndpoint(endpointLimitKey uint64, reqChan chan struct{}) {
+	queued := false
+	_, _ = c.endpointQueues.ReplaceWithFunc(endpointLimitKey, func(oldValue *endpointQueue, oldLoaded bool) (newValue *endpointQueue, doDelete bool) {
+		if !oldLoaded {
+			return nil, true
+		}
+		if i := slices.Index(oldValue.orderedRequest, reqChan); i >= 0 {
+			oldValue.orderedRequest = slices.Delete(oldValue.orderedRequest, i, i+1)
+			queued = true
+		}
+		return oldValue, false
+	})
+	if !queued {
+		c.releaseEndpoint(endpointLimitKey)
 	}
 }
 
